@@ -736,6 +736,8 @@ func checkC05(c *Ctx) Meta {
 	c.popAlias()
 	checkUnlockAllOrNothing(c, "C05-LOCKSTATE")
 	checkParsedKeyWidth(c, "C05-BIND")
+	c.Rule("C05-BRANCHPUT", "an imported keystore's issued keys of both branches are persisted: for each of hdPath.InternalChildNum / ExternalChildNum the import routine has a call persisting the re-derived public keys (putEncryptedPubKey, directly or through a new helper) that is not guarded by the other branch's non-zero test", 2)
+	checkBranchPersist(c, "C05-BRANCHPUT")
 	if f := c.MustFn("C05-LOCKSTATE", "poc/wallet/keystore", "(*KeystoreManagerForPoC).Lock"); f != nil {
 		li2 := keystoreLocksets(c)
 		key := "Lock:keys-wiped-before-the-manager-lock-is-released"
